@@ -84,7 +84,8 @@ def make_cases(ctx, n, stream=1):
         try:      # plus the breaks exactly as the class stores them (when it is sane), and their float neighbours
             stored = np.asarray(make_history(ps, tb).coalescent_breaks, dtype=float)
             if stored.size == len(starts) and np.all(np.isfinite(stored)) and np.all(stored >= 0):
-                extra = [float(x) for x in stored] + [float(np.nextafter(x, np.inf)) for x in stored] + \
+                # (no neighbour of 0: 5e-324 only exercises underflow, which is outside the statement)
+                extra = [float(x) for x in stored] + [float(np.nextafter(x, np.inf)) for x in stored[1:]] + \
                         [float(np.nextafter(x, 0.0)) for x in stored[1:]]
                 cs = sorted(set(cs) | set(extra))
         except Exception:  # noqa: BLE001
